@@ -185,14 +185,29 @@ func pivot2Run(x *run, pw *pivot2World, scheme string, seed int64) {
 		select {
 		case err = <-done:
 		case <-time.After(20 * time.Minute):
-			tl.Fatal("sync did not finish within 20 minutes (run %v)", x.desc)
+			// every run has a peer that answers honestly: not finishing is the syncer's failure
+			x.mu.Lock()
+			x.violate("snap sync stalled: no completion within 20 minutes although a peer able to make progress is present", tl.M{})
+			stop := x.cancel
+			x.mu.Unlock()
+			if stop != nil {
+				stop()
+			}
+			select {
+			case <-done:
+			case <-time.After(time.Minute):
+			}
+			return
 		}
 		x.mu.Lock()
 		x.cancel = nil
 		x.sum.Count("pivot2:cycle")
 		x.mu.Unlock()
 		if err != nil && err != snap.ErrCancelled {
-			tl.Fatal("sync failed with an unexpected error: %v (run %v)", err, x.desc)
+			x.mu.Lock()
+			x.violate(fmt.Sprintf("snap sync failed although a peer able to make progress is present: %v", err), tl.M{})
+			x.mu.Unlock()
+			return
 		}
 		if target == early {
 			if err == nil {
